@@ -168,7 +168,7 @@ class LineGen:
         if layout[0].startswith("0002") and (path_ids if path_ids is not None else rng.random() < 0.6):
             # ids that are paths: prefixes of one another, through another object's inner directories, escaping
             self.ids = list(rng.choice([["a", "a/v1/x", "a/b", "z"], ["coll/2024/rep1", "coll/2024/rep2", "coll"], ["../esc", "ok", "ok/../../y"],
-                                        ["p", "p/v1/content", "p/extensions/e"]]))
+                                        ["p", "p/v1/content", "p/extensions/e"], ["file-extensions", "coll/my_extensions", "extensions-x", "plain"]]))
         self.big = big
         self.files = rng.sample(NAMES[:-1], rng.randint(3, 6)) + (["big.bin"] if big else [])
         self.k = 0
